@@ -1,3 +1,3 @@
 #!/bin/sh
 # replays this counterexample against the real build
-cd /repo && VERIF_SCRIPT=/verif/replays/C13/VHarnessHTLCSound_d745bc53_0/script.json GOFLAGS=-mod=mod GOPROXY=off go test -vet=off -count=1 -overlay /verif/replays/C13/VHarnessHTLCSound_d745bc53_0/overlay.json -run ^TestVerifReplay_VHarnessHTLCSound$ -v ./cashu/nuts/nut14
+cd /tmp/seedrepo_C13 && VERIF_SCRIPT=/verif/replays/C13/VHarnessHTLCSound_d745bc53_0/script.json VERIF_RAW_SALT=0 GOFLAGS=-mod=mod GOPROXY=off go test -vet=off -count=1 -overlay /verif/replays/C13/VHarnessHTLCSound_d745bc53_0/overlay.json -run ^TestVerifReplay_VHarnessHTLCSound$ -v ./cashu/nuts/nut14
